@@ -26,6 +26,33 @@ UNINIT_KEY = "crash:uninit-object-initiator-cache"
 Obj = namedtuple("Obj", "type gp os own cpuset mem subtype")
 
 
+def name_bytes(tok):
+    """attribute-name token -> bytes (%XX escapes, @empty)"""
+    if tok == "@empty":
+        return b""
+    out, i = bytearray(), 0
+    while i < len(tok):
+        if tok[i] == "%" and i + 2 < len(tok) and all(c in "0123456789abcdefABCDEF" for c in tok[i + 1:i + 3]) and len(tok[i + 1:i + 3]) == 2:
+            out.append(int(tok[i + 1:i + 3], 16))
+            i += 3
+        else:
+            out += tok[i].encode("utf-8")
+            i += 1
+    return bytes(out)
+
+
+def name_token(b):
+    """bytes -> canonical token (the harness and the model driver print names the same way)"""
+    if not b:
+        return "@empty"
+    return "".join(chr(c) if (chr(c).isascii() and (chr(c).isalnum() or chr(c) in "_.+-")) else "%%%02X" % c for c in b)
+
+
+def xml_safe_token(tok):
+    """hwloc__xml_export_safestrdup(): bytes outside 32..126 / tab / LF / CR are dropped from the exported name"""
+    return name_token(bytes(c for c in name_bytes(tok) if 32 <= c <= 126 or c in (9, 10, 13)))
+
+
 class BadCase(Exception):
     pass
 
@@ -468,6 +495,41 @@ class Ref:
         if how == "xml" and self.nomem:
             # the importing topology has NO_MEMATTRS too: hwloc__xml_import_memattr ignores every attribute
             self.attrs, self.ent, self.valid, self.cnt, self.alloc = [], {}, {}, {}, {}
+        if how == "xml" and not self.nomem:
+            # exported names keep only XML-valid bytes (hwloc__xml_export_safestrdup).  The importer looks every
+            # exported attribute up by that name: an existing one with the same flags receives the values (replayed
+            # as sets), one with other flags makes them vanish, otherwise the attribute is registered again.
+            new = [a[0] if i < 8 else xml_safe_token(a[0]) for i, a in enumerate(self.attrs)]
+            if len(set(new)) != len(new):
+                self.flags.add("xmlname-collision")
+                self.stats["xml_name_collisions"] += 1
+                for id_ in range(2, len(self.attrs)):
+                    self.touch(id_)                       # the export refreshes first
+                old_attrs, old_ent = self.attrs, self.ent
+                self.attrs = [list(a) for a in old_attrs[:8]]
+                self.ent = {i: old_ent.get(i, []) for i in range(8)}
+                for i in range(8, len(old_attrs)):
+                    nm, fl = new[i], old_attrs[i][1]
+                    j = next((k for k, a in enumerate(self.attrs) if a[0] == nm), None)
+                    if j is None:
+                        self.attrs.append([nm, fl])
+                        j = len(self.attrs) - 1
+                        self.ent[j] = []
+                        self.valid[j], self.cnt[j], self.alloc[j] = True, 0, False
+                        self.ent[j] = old_ent.get(i, [])
+                        continue
+                    self.dupos_attrs.add(j)               # merged values: left to the model diff
+                    if j >= 2 and self.attrs[j][1] == fl:
+                        for tg in old_ent.get(i, []):
+                            for k in tg.keys:
+                                self.do_set(j, tg.gp, tg.type, k[0], k[1], count=False)
+                for j in list(self.valid):
+                    if j >= len(self.attrs):
+                        self.valid.pop(j, None); self.cnt.pop(j, None); self.alloc.pop(j, None)
+            elif new != [a[0] for a in self.attrs]:
+                self.stats["xml_renamed_attrs"] += 1
+                for a, n in zip(self.attrs, new):
+                    a[0] = n
         for id_ in range(self.nconv, len(self.attrs)):
             if how == "xml":
                 # since /repo 16e3604 the export refreshes every attribute first (hwloc__xml_export_memattrs):
@@ -568,6 +630,11 @@ class Ref:
         if init[0] == "o" and self.internal:
             self.hazard.add(id_)
         tg.keys.append([init, value, un])
+        # since /repo c3717fc an appended initiator invalidates the cache: the next access refreshes (and narrows /
+        # drops a cpuset reaching outside the root cpuset).  Every reader and writer refreshes first, so the
+        # reference applies that refresh right away.
+        self.valid[id_] = False
+        self.touch(id_)
 
     def x_set(self, t):
         if len(t) != 6:
@@ -628,8 +695,8 @@ class Ref:
             if o is not None and o.type == type_ and (not (self.attrs[id_][1] & NI) or (init[0] == "o" or init[1])):
                 existed = self.find(id_, o.gp) is not None
                 self.do_set(id_, o.gp, o.type, init, value, count=False)
-                if gp is None and not existed:
-                    self.find(id_, o.gp).pending = True
+                # (a target entered by os_index only gets its gp_index at the next refresh, which every access
+                # and - since 16e3604 - the XML export perform: nothing to remember here)
             else:
                 # a target the reference table cannot resolve: the C side allocates an entry that the next refresh drops
                 self.ev_newtarget(id_)
@@ -1526,6 +1593,8 @@ class OpGen:
         self.pool = rng.sample([1, 2, 3, 5, 8, 10, 20, 50, 100, 1000], 3)
         self.focus = rng.sample(range(2, 8), 2) if not ref.nomem else []
         self.names = ["foo", "bar", "baz", "Qux", "Bandwidth2", "x1", "Capacity2", "lat"]
+        if stream == "names":
+            self.names = ["NodeBW", "lat", "x"]
         self.restricts = 0
         self.gone = 0
         self.family, self.objpool = [], []
@@ -1536,6 +1605,9 @@ class OpGen:
             w["allow"] = 5
         if stream == "allow":       # hwloc_topology_allow between the memattr calls (INCLUDE_DISALLOWED topologies)
             w["allow"] = 16
+        if stream == "names":       # attribute names: near-collisions, lookups by name, XML round trips keep every attribute apart
+            w = {"reg": 22, "getbyname": 22, "getname": 6, "getflags": 3, "set": 22, "get": 8, "targets": 6, "bestt": 5, "inits": 3,
+                 "besti": 2, "xml": 8, "dup": 2, "restrict": 1}
         if stream == "tiers":       # memory tiers: local bandwidth/latency values, then XML reloads with HWLOC_MEMTIERS* set
             w = {"set": 6, "xmlt": 14, "defnodes": 6, "restrict": 3, "get": 2, "bestt": 2, "xml": 1, "dup": 1, "tierset": 12}
         if stream == "hetero":      # default nodeset / local nodes on heterogeneous machines, through restrict/dup/xml
@@ -1662,10 +1734,46 @@ class OpGen:
         return "c:" + fset(rng.choice(self.family) | rng.choice(self.family) | self.subset(ref.topo.root))
 
     # -- individual ops
+    def near_name(self, tok):
+        """a name colliding with `tok` under some sloppy comparison: case, prefix/suffix, one trailing byte, ..."""
+        rng = self.rng
+        b = name_bytes(tok)
+        r = rng.randrange(9)
+        if r == 0:
+            v = b.swapcase()
+        elif r == 1:
+            v = b.lower() if b.lower() != b else b.upper()
+        elif r == 2:
+            v = b[:-1] if len(b) > 1 else b + b"2"
+        elif r == 3:
+            v = b + rng.choice([b" ", b"2", b"_", b".", b"\xc3\xa9"])
+        elif r == 4:
+            v = b[:-1] + bytes([b[-1] ^ rng.choice([1, 0x20, 0x80])]) if b else b"a"
+        elif r == 5:
+            v = rng.choice([b" ", b"x"]) + b
+        elif r == 6:
+            v = b[1:] if len(b) > 1 else b + b"x"
+        elif r == 7:
+            v = b + b"\xc3\xa9" + rng.choice([b"", b"1", b"\xc3\xa8"])      # UTF-8
+        else:
+            v = b * 40 + rng.choice([b"", b"a", b"A"])                          # long
+        v = bytes(c for c in v if c != 0 and c not in (9, 10, 13))
+        return name_token(v[:400])
+
     def g_reg(self):
         rng, attrs = self.rng, self.ref.attrs
         used = [a[0] for a in attrs]
         fresh = [n for n in self.names if n not in used]
+        if self.stream == "names" or rng.random() < 0.12:
+            r = rng.random()
+            if used and r < 0.75:
+                name = self.near_name(rng.choice(used))                  # incl. near-collisions with the predefined names
+            elif r < 0.85:
+                name = rng.choice(["@empty", "a%26b", "a%3Cb%3E", "q%22q", "it%27s", "%25", "two%20words", "%C3%A9", "%40x"])
+            else:
+                name = rng.choice(fresh or used or self.names)
+            flags = rng.choice([1, 2, 5, 6]) if rng.random() < 0.9 else rng.choice([0, 3, 7, 8])
+            return "reg %s %d" % (name, flags)
         name = rng.choice(fresh) if fresh and (not used or rng.random() < 0.7) else rng.choice(used or self.names)
         flags = rng.choice([1, 2, 5, 6]) if rng.random() < 0.75 else rng.choice([0, 3, 7, 8, 16])
         return "reg %s %d" % (name, flags)
@@ -1742,7 +1850,12 @@ class OpGen:
         return "defnodes %d" % (0 if self.rng.random() < 0.9 else self.rng.choice([1, 2]))
 
     def g_getbyname(self):
-        return "getbyname %s" % self.rng.choice([a[0] for a in self.ref.attrs] + self.names + ["nosuch"])
+        rng = self.rng
+        used = [a[0] for a in self.ref.attrs]
+        if used and (self.stream == "names" or rng.random() < 0.3):
+            u = rng.choice(used)
+            return "getbyname %s" % (u if rng.random() < 0.5 else self.near_name(u))
+        return "getbyname %s" % rng.choice(used + self.names + ["nosuch"])
 
     def g_getname(self):
         return "getname %d" % self.rng.choice(list(range(len(self.ref.attrs) + 1)))
@@ -2096,11 +2209,28 @@ def gen_case(rng, proc, name, stream, first=False):
                 line = og.next_op()
             else:
                 break
+            before = {k: [tg.gp for tg in v] for k, v in ref.ent.items()} if line.startswith("restrict ") else None
             r, tab = parse_op_output(s.send(line))
             if r is None:
                 raise RuntimeError("no R line for %r" % line)
             ref.step(i, line, r, tab)
             i += 1
+            if before is not None and r.startswith("R restrict rc=0"):
+                # the attribute caches are stale now: the very next call on an attribute that lost a target must
+                # refresh BEFORE it looks its target up (the refresh compacts the array).  Ask right away for a
+                # target stored after a vanished one.
+                for id_, gps in before.items():
+                    left = [tg.gp for tg in ref.ent.get(id_, [])]
+                    if len(left) < len(gps) and left and id_ < len(ref.attrs):
+                        gone_pos = min(k for k, g in enumerate(gps) if g not in left)
+                        later = [g for g in gps[gone_pos:] if g in left] or left
+                        gp = rng.choice(later)
+                        ni = ref.attrs[id_][1] & NI
+                        cand = ["get %d %d %s 0" % (id_, gp, og.query_init(id_, gp))]
+                        if ni:
+                            cand += ["inits %d %d 0 4 0 1" % (id_, gp), "besti %d %d 0" % (id_, gp)]
+                        ops.insert(0, rng.choice(cand))
+                        break
             if line.split(" ")[0] in ("restrict", "dup", "xml", "xmlt"):
                 if tab is not None and r.startswith("R restrict rc=0"):
                     og.gone |= topo.root & ~tab.root
